@@ -110,6 +110,9 @@ def scenarios(ctx):
                        connects=[(True, 0, 4), (False, 0, 4)],
                        budgets=dict(connect=1, connack=1, pub=3 if q else 4, ack=3, setwin=1, tick=1),
                        windows=(1, 2)))
+    # publish() called again from inside the success callback of an earlier publish (re-entrant use of the API)
+    out.append(Std('pub-reenter', profile='pub', mode='sync', init=CONNECTED, windows=(1, 2), pub_qos=(0, 1, 2), reenter=('pub',),
+                   budgets=dict(pub=3, ack=3, setwin=1)))
     # resumed sessions that inherit in-flight packets
     for mode in ('sync',):      # transport mode is irrelevant without client-side close requests
         out.append(Std('pubsub-persist-%s' % mode, profile='pubsub', mode=mode, init=CONNECTED_P,
